@@ -157,13 +157,16 @@ const MATE_SEEDS: &[&str] = &[
 
 pub struct Target {
     pub fen: String,
-    pub class: Class,
+    /// None for the generated families: classified by the worker that owns the position
+    pub class: Option<Class>,
     /// true for the generated families (searched with fewer cache histories in quick)
     pub busy: bool,
     /// quick tier: 0 = fresh cache only, 1 = the short list of histories, 2 = all 21
     pub level: u8,
     /// many-queens positions (searches are slow: quick tier takes the first 80 at depth 3 only)
     pub heavy: bool,
+    /// sparse family (26874 positions): the quick tier searches these to depth 4 only
+    pub sparse: bool,
 }
 
 /// Deterministic generator of busy positions (fixed LCG seed, NOT re-randomised per run): used
@@ -456,14 +459,14 @@ pub fn targets(tier: &str) -> Vec<Target> {
         }
         let c = classify(&p);
         if c.interesting() {
-            v.push(Target { fen: p.fen(), class: c, busy: false, level: 2, heavy: false });
+            v.push(Target { fen: p.fen(), class: Some(c), busy: false, level: 2, heavy: false, sparse: false });
         }
     }
     // keep the class mix: take round-robin from the three classes up to the cap
     let mut out: Vec<Target> = vec![];
     let mut buckets: Vec<Vec<Target>> = vec![vec![], vec![], vec![]];
     for t in v {
-        let k = match t.class.label() {
+        let k = match t.class.as_ref().map_or("", |c| c.label()) {
             "mate-in-1" => 0,
             "mate-in-2" => 1,
             _ => 2,
@@ -496,10 +499,6 @@ pub fn targets(tier: &str) -> Vec<Target> {
                 _ => 2,
             };
             let Ok(p) = Pos::from_fen(fen) else { continue };
-            let c = classify(&p);
-            if !c.interesting() {
-                continue;
-            }
             let level = if !heavy && taken[k] < [n2, n1, na][k] / if minor { 3 } else { 1 } { 1 } else { 0 };
             taken[k] += 1;
             if heavy {
@@ -508,8 +507,15 @@ pub fn targets(tier: &str) -> Vec<Target> {
                     continue;
                 }
             }
-            out.push(Target { fen: p.fen(), class: c, busy: true, level, heavy });
+            out.push(Target { fen: p.fen(), class: None, busy: true, level, heavy, sparse: false });
         }
+    }
+    // sparse positions (kings and two to five pieces): fresh cache only; rare interior situations
+    // (a side left without pieces, placeholder moves in the cache) show up in about one of 10^4
+    for line in include_str!("mate_family_sparse.txt").lines() {
+        let Some((_, fen)) = line.split_once('\t') else { continue };
+        let Ok(p) = Pos::from_fen(fen) else { continue };
+        out.push(Target { fen: p.fen(), class: None, busy: true, level: 0, heavy: false, sparse: true });
     }
     // a double pawn step that would be mate but for the en-passant capture, next to a real short
     // mate: both colours (the generator builds White-to-move positions, the mirror is added here)
@@ -517,10 +523,7 @@ pub fn targets(tier: &str) -> Vec<Target> {
         let Some((_, fen)) = line.split_once('\t') else { continue };
         let Ok(p) = Pos::from_fen(fen) else { continue };
         for q in [p.clone(), p.mirror()] {
-            let c = classify(&q);
-            if c.interesting() {
-                out.push(Target { fen: q.fen(), class: c, busy: true, level: u8::from(k < 20), heavy: false });
-            }
+            out.push(Target { fen: q.fen(), class: None, busy: true, level: u8::from(k < 20), heavy: false, sparse: false });
         }
     }
     out
@@ -564,13 +567,28 @@ pub fn worker(args: &Args, w: &Worker) -> i32 {
     let hs_fresh: Vec<Vec<u8>> = vec![vec![]];
     let mut hs_thorough = histories();
     hs_thorough.extend(histories_long());
-    if w.shard == 0 {
-        let count = |l: &str| ts.iter().filter(|t| t.class.label() == l).count();
-        w.info("classes", &format!("{} {} {}", count("mate-in-1"), count("mate-in-2"), count("avoidable-threat")));
-    }
     let mut idx = 0;
-    for t in &ts {
+    for (ti, t) in ts.iter().enumerate() {
+        // a family position belongs to one worker, which classifies it (the exhaustive solver is
+        // the expensive part); the neighbourhood positions are classified by `targets` already
+        if t.class.is_none() && !w.mine(ti) {
+            continue;
+        }
         let Ok(pos) = Pos::from_fen(&t.fen) else { continue };
+        let class = match &t.class {
+            Some(c) => c.clone(),
+            None => {
+                let c = classify(&pos);
+                if !c.interesting() {
+                    w.count("family_lines_not_interesting", 1);
+                    continue;
+                }
+                c
+            }
+        };
+        if t.class.is_none() || w.shard == 0 {
+            w.count(&format!("positions:{}", class.label()), 1);
+        }
         let hs: &Vec<Vec<u8>> = if thorough && t.level > 0 {
             &hs_thorough
         } else if thorough {
@@ -586,29 +604,32 @@ pub fn worker(args: &Args, w: &Worker) -> i32 {
             if t.heavy && depth == 4 && !thorough {
                 continue;
             }
+            if t.sparse && depth == 3 && !thorough {
+                continue;
+            }
             for h in hs {
                 idx += 1;
-                if !w.mine(idx) {
+                if t.class.is_some() && !w.mine(idx) {
                     continue;
                 }
                 let Some((best, panicked)) = run_history(&t.fen, h, depth) else { continue };
                 w.count("searches_judged", 1);
-                w.count(&format!("class:{}", t.class.label()), 1);
+                w.count(&format!("class:{}", class.label()), 1);
                 if t.busy {
                     w.count("searches_on_generated_busy_family", 1);
                 }
                 let why = match (&best, &panicked) {
                     (_, Some(p)) => Some(format!("the search panicked: {p}")),
                     (None, _) => Some("no move chosen".to_string()),
-                    (Some(mv), _) => judge_move(&pos, &t.class, mv),
+                    (Some(mv), _) => judge_move(&pos, &class, mv),
                 };
                 if idx % 501 == 0 {
-                    w.sample(obj(vec![("fen", s(t.fen.clone())), ("class", s(t.class.label())), ("earlier_searches_at_depths", J::Arr(h.iter().map(|d| i(*d)).collect())), ("depth", i(depth)), ("chosen", s(best.clone().unwrap_or_default()))]));
+                    w.sample(obj(vec![("fen", s(t.fen.clone())), ("class", s(class.label())), ("earlier_searches_at_depths", J::Arr(h.iter().map(|d| i(*d)).collect())), ("depth", i(depth)), ("chosen", s(best.clone().unwrap_or_default()))]));
                 }
                 if let Some(why) = why {
                     w.violation(
                         &format!("{}|{:?}|d{depth}", t.fen, h),
-                        &format!("{} ({}) searched to depth {depth} after earlier searches at depths {:?}: {why}", t.fen, t.class.label(), h),
+                        &format!("{} ({}) searched to depth {depth} after earlier searches at depths {:?}: {why}", t.fen, class.label(), h),
                         &obj(vec![("kind", s("mates")), ("fen", s(t.fen.clone())), ("earlier", J::Arr(h.iter().map(|d| i(*d)).collect())), ("depth", i(depth))]),
                     );
                 }
@@ -628,7 +649,7 @@ pub fn run(args: &Args) -> i32 {
         }
     };
     let judged = merged.get("searches_judged");
-    let classes: Vec<u64> = merged.infos.get("classes").map(|t| t.split_whitespace().filter_map(|x| x.parse().ok()).collect()).unwrap_or_default();
+    let classes: Vec<u64> = ["positions:mate-in-1", "positions:mate-in-2", "positions:avoidable-threat"].iter().map(|k| merged.get(k)).collect();
     let mut extra: Vec<(String, J)> = merged.counters.iter().map(|(k, v)| (k.replace(':', "_"), i(*v))).collect();
     extra.push(("positions_mate_in_1".into(), i(classes.first().copied().unwrap_or(0))));
     extra.push(("positions_mate_in_2".into(), i(classes.get(1).copied().unwrap_or(0))));
